@@ -181,7 +181,11 @@ pub fn run(tape: &[u8], cx: &Cx) -> Outcome {
         // str_derivative(e, s) must denote s^-1 L(e): exact comparison with the reference state after s
         let mut w = prefix.clone();
         w.extend(s);
-        if let BisimResult::Differ { word, crate_says, reference_says } = bisim_multi(&mut mgr, &prog.atoms, dfa, &[(q, d1, w.clone()), (q, d2, w)], 1500) {
+        let res = bisim_multi(&mut mgr, &prog.atoms, dfa, &[(q, d1, w.clone()), (q, d2, w)], 1500);
+        if matches!(res, BisimResult::Capped) {
+            o.tag("bisim-capped");
+        }
+        if let BisimResult::Differ { word, crate_says, reference_says } = res {
             o.fail(
                 "C03/str-derivative-not-composition",
                 format!("{}: str_derivative(e, {}) = {} (fold of char_derivative: {}): membership of {} is {} but must be {}", what, show_str(s), d1, d2, show_str(&word), crate_says, reference_says),
@@ -234,7 +238,11 @@ pub fn run(tape: &[u8], cx: &Cx) -> Outcome {
                         w.push(c);
                         roots.push((dfa.step(q0, prog.atoms.atom_of(c)), d, w));
                     }
-                    if let BisimResult::Differ { word, .. } = bisim_multi(&mut mgr, &prog.atoms, dfa, &roots, 1500) {
+                    let res = bisim_multi(&mut mgr, &prog.atoms, dfa, &roots, 1500);
+                    if matches!(res, BisimResult::Capped) {
+                        o.tag("bisim-capped");
+                    }
+                    if let BisimResult::Differ { word, .. } = res {
                         o.fail("C03/set-derivative-wrong", format!("{}: set_derivative(e, {}) = {} is not the quotient (differs on {})", what, show_iv((a, b)), d, show_str(&word)));
                         return o;
                     }
